@@ -151,7 +151,7 @@ def build_model():
         for f in sorted(files):
             if f.endswith(".v"):
                 h.update(open(os.path.join(root, f), "rb").read())
-    for f in ("conv.ml", "driver.ml", "build.sh"):
+    for f in ("conv.ml", "util.ml", "driver.ml", "build.sh"):
         h.update(open(os.path.join(VERIF, "ocaml", f), "rb").read())
     dig = h.hexdigest()
     if os.path.exists(stamp) and open(stamp).read() == dig and os.path.exists(os.path.join(BUILD, "ocaml", "model")):
@@ -243,7 +243,7 @@ def _run_sharded(argv, lines, timeout, shards=None):
 
 
 def run_model(fam, lines, timeout=1500):
-    return _run_sharded([os.path.join(BUILD, "ocaml", "model"), fam], lines, timeout)
+    return _run_sharded(["sh", "-c", "ulimit -s unlimited 2>/dev/null || ulimit -s 1000000; exec %s %s" % (os.path.join(BUILD, "ocaml", "model"), fam)], lines, timeout)
 
 
 def run_impl(fam, lines, variant="default", timeout=1500, shards=None):
@@ -255,7 +255,9 @@ def canon_default(s):
         return "none"
     if s.startswith("panic"):
         return "panic"
-    return s
+    # error kinds are compared by variant; the message of the two String-carrying variants is
+    # compared only where a property asks for it
+    return re.sub(r"\[[^\]]*\]", "", s)
 
 
 # ---------------------------------------------------------------------------------------------
